@@ -490,6 +490,62 @@ func (ch c16) runStress(c *core.Ctx, round int) {
 	c.Eval(fmt.Sprintf("stress n=%d k=%d sent=%d adm=%d", nconn, nclose, sent.Load(), h.count("cmd:admitted")), true)
 }
 
+func (ch c16) multiListener(c *core.Ctx, nl int) {
+	cs := map[string]any{"listeners": nl}
+	e := &c16env{entered: make(chan string, 8)}
+	srv, err := wire.NewServer(ch.parseFn(e), wire.Logger(hs.Quiet), wire.MessageBufferSize(1<<16))
+	if err != nil {
+		c.Inconclusive("NewServer failed")
+		return
+	}
+	var ls []*tr.Listener
+	done := make(chan error, nl)
+	for i := 0; i < nl; i++ {
+		l := tr.NewListener()
+		ls = append(ls, l)
+		go func() { done <- srv.Serve(l) }()
+		<-l.Ready()
+	}
+	// every listener serves connections
+	for i, l := range ls {
+		cl := hs.NewClient(l.Dial(nil))
+		if err := cl.StartupOK("u"); err != nil {
+			c.Violate("multi-listener", "a second listener of the same server does not serve connections", fmt.Sprintf("listener %d: %v", i, err), cs)
+			return
+		}
+		out, _ := cl.Step(pg.Query("plain"))
+		if !strings.HasSuffix(replyKinds(out), "ZI") {
+			c.Violate("multi-listener", "a second listener of the same server does not serve queries", replyKinds(out), cs)
+			return
+		}
+		cl.C.CloseWrite()
+	}
+	closed := make(chan struct{})
+	go func() { srv.Close(); close(closed) }()
+	select {
+	case <-closed:
+	case <-time.After(30 * time.Second):
+		_, lib := core.ClassifyHang()
+		c.Violate("deadlock", "Close never returned with several listeners: "+strings.Join(lib, "; "), "", cs)
+		return
+	}
+	for i := 0; i < nl; i++ {
+		select {
+		case err := <-done:
+			if err != nil {
+				c.Violate("serve-error", "Serve returned a non-nil error after Close", err.Error(), cs)
+			} else {
+				c.Count("serve_returned_nil", 1)
+			}
+		case <-time.After(10 * time.Second):
+			c.Violate("serve-hang", fmt.Sprintf("with %d listeners only %d Serve call(s) returned after Close", nl, i), "Close stopped only some of the accept loops", cs)
+			return
+		}
+	}
+	c.Count("multi_listener_servers", 1)
+	c.Eval(fmt.Sprintf("listeners=%d", nl), true)
+}
+
 func (ch c16) Run(c *core.Ctx) {
 	nb := ch.Batches(c.Tier)
 	tr.WatchdogTimeout = 30 * time.Second
@@ -511,6 +567,13 @@ func (ch c16) Run(c *core.Ctx) {
 	}
 	if c.Batch == 0 {
 		c.Count("exhaustive_parts", 1)
+	}
+	// several listeners on one server: every Serve call must return nil after Close
+	for nl := 2; nl <= 3; nl++ {
+		if !c.Begin(50000+nl) || c.NViol() >= 10 {
+			continue
+		}
+		ch.multiListener(c, nl)
 	}
 	rounds := 1600
 	if c.Tier == "thorough" {
